@@ -410,8 +410,12 @@ def gen_value(L, m, o):
 PZ_DBS = [("pitzer.dat", 0, 100), ("sit.dat", 0, 100), ("frezchem.dat", 0, 25), ("ColdChem.dat", 0, 25), ("pitzer+Concrete_PZ", 0, 100)]
 SALTS = {"NaCl": {"Na": 1, "Cl": 1}, "KCl": {"K": 1, "Cl": 1}, "MgCl2": {"Mg": 1, "Cl": 2}, "CaCl2": {"Ca": 1, "Cl": 2},
          "Na2SO4": {"Na": 2, "S(6)": 1}, "K2SO4": {"K": 2, "S(6)": 1}, "MgSO4": {"Mg": 1, "S(6)": 1}, "NaBr": {"Na": 1, "Br": 1},
-         "KBr": {"K": 1, "Br": 1}, "NaHCO3": {"Na": 1, "C(4)": 1}, "NaAl(OH)4": {"Na": 1, "Al": 1}}
-SALT_MAX = {"NaCl": 6, "KCl": 4.5, "MgCl2": 5, "CaCl2": 6, "Na2SO4": 1.8, "K2SO4": 0.65, "MgSO4": 3, "NaBr": 6, "KBr": 5, "NaHCO3": 1.0, "NaAl(OH)4": 0.5}
+         "KBr": {"K": 1, "Br": 1}, "NaHCO3": {"Na": 1, "C(4)": 1}, "NaAl(OH)4": {"Na": 1, "Al": 1},
+         # dissolved NEUTRAL solutes (no counter-ion; `pH 7 charge` lets the pH settle where they stay neutral): they exercise the
+         # neutral-ion LAMBDA / ZETA terms of the Pitzer databases, which pure strong-electrolyte paths never touch
+         "CO2": {"C(4)": 1}, "B(OH)3": {"B": 1}, "H4SiO4": {"Si": 1}}
+NEUTRALS = ["CO2", "B(OH)3", "H4SiO4"]
+SALT_MAX = {"NaCl": 6, "KCl": 4.5, "MgCl2": 5, "CaCl2": 6, "Na2SO4": 1.8, "K2SO4": 0.65, "MgSO4": 3, "NaBr": 6, "KBr": 5, "NaHCO3": 1.0, "NaAl(OH)4": 0.5, "CO2": 0.8, "B(OH)3": 0.8, "H4SiO4": 0.004}
 
 
 def pz_text(n, tc, comps):
@@ -460,7 +464,15 @@ def pz_paths(ctx, npaths, nsteps):
                 chosen = [ctx.rng.choice(salts)]              # a single salt
             else:
                 chosen = ctx.rng.sample(salts, min(len(salts), ctx.rng.randint(2, 5)))
+            neut = [s for s in salts if s in NEUTRALS]
+            chosen = [s for s in chosen if s not in NEUTRALS] or [ctx.rng.choice([s for s in salts if s not in NEUTRALS])]
             weights = {s: (1.0 if i == 0 else 10 ** ctx.rng.uniform(-2, 0)) for i, s in enumerate(chosen)}
+            # paths 1 and 2 (concentrated mixture, scaling resp. mixing) always carry a neutral solute in a noticeable amount when
+            # the database has one; elsewhere with probability 0.3
+            if neut and (p in (1, 2) or (p > 0 and ctx.rng.random() < 0.3)):
+                nsp = ctx.rng.choice(neut) if (p not in (1, 2) or "CO2" not in neut or ctx.rng.random() < 0.4) else "CO2"
+                weights[nsp] = 10 ** ctx.rng.uniform(-1.3, -0.3) if nsp != "H4SiO4" else 10 ** ctx.rng.uniform(-3.5, -3)
+                chosen = chosen + [nsp]
             h = 0.01 if p % 2 == 0 else ctx.rng.uniform(0.002, 0.01)
             span = (1 + h) ** nsteps
             # molality of the leading salt at the concentrated end: paths 0-2 are concentrated (that is where the
